@@ -163,13 +163,21 @@ def endtoend(chk):
         n, k, c, a0 = rng.randrange(0, 7), rng.randrange(-2, 4), rng.randrange(-3, 4), rng.randrange(-3, 6)
         csel = shape[0].replace("{P}", ptxt)
         usel, cap = shape[1], shape[2]
+        ptxt2, pfn2 = rng.choice(preds)
+        cap2 = None
+        if rng.random() < 0.35:
+            # two conditions; the first-listed variable (y) is bound AFTER the focus: not captured yet on the first
+            # iteration (its condition imposes nothing then), one iteration behind afterwards
+            csel, usel, cap, cap2 = ("f(y%s, i%s) > x" % (ptxt2, ptxt), "f(y, i) > x", "i", "y")
+            if rng.random() < 0.5:
+                csel = "f(i%s, y%s) > x" % (ptxt, ptxt2)
         with ptera.probing(usel, env=env).values() as un:
             r0 = mod.g(a0, n, k, c)
         with ptera.probing(csel, env=env).values() as co:
             r1 = mod.g(a0, n, k, c)
-        want = [ev for ev in un if cap not in ev or pfn(ev[cap])]
+        want = [ev for ev in un if (cap not in ev or pfn(ev[cap])) and (cap2 is None or cap2 not in ev or pfn2(ev[cap2]))]
         chk.count((csel, n, k, c, a0), nontrivial=bool(un) and len(want) != len(un))
-        chk.dist("e2e:" + shape[0])
+        chk.dist("e2e:" + (shape[0] if cap2 is None else "two conditions, one on a variable bound after the focus"))
         n_events += len(un)
         if list(co) != want or r0 != r1:
             chk.violation("oracle", "selector %r delivered %d events, the stated filter gives %d" % (
@@ -177,7 +185,7 @@ def endtoend(chk):
                 {"selector": csel, "unconstrained": usel, "args": [a0, n, k, c],
                  "got": list(co), "want": want})
         # override under the same condition and not otherwise
-        if shape[0] == "f(i{P}) > x":
+        if shape[0] == "f(i{P}) > x" and cap2 is None:
             with ptera.probing(csel, env=env, overridable=True) as prb:
                 prb.override(lambda d: 1000)
                 with ptera.probing("f(i) > y", env=env).values() as ys:
